@@ -553,11 +553,37 @@ def _fields(c):
 
 
 # ------------------------------------------------------------------------------------------------ seq methods
+def abstract_coded(sp, x):
+    """code of an item as seen through the coded abstraction; sound only if the item is the canonical
+    representative of its code (a fallback object must carry an unassigned code: checked, not assumed)"""
+    import enum as _enum
+    P = E.cur()
+    if isinstance(x, V.SCoded) and x.spec.key() == sp.key():
+        return x.code
+    if sp.wrap_known is not None and isinstance(x, SObj) and x.cls is sp.wrap_known:
+        inner = [v for v in x.f.values() if isinstance(v, (SEnum, _enum.Enum))]
+        if len(inner) != 1:
+            raise E.Unsupported('wrapped coded item with %d enum fields' % len(inner))
+        x = inner[0]
+    if isinstance(x, SEnum) and x.cls is sp.enum_cls:
+        return V.enum_table(sp.enum_cls, x.idx, lambda m: m.value.code)
+    if isinstance(x, _enum.Enum) and type(x) is sp.enum_cls:
+        return z3.IntVal(x.value.code)
+    if sp.fallback_cls is not None and isinstance(x, SObj) and x.cls is sp.fallback_cls:
+        c = as_int(x.f['code'])
+        if not P.entails(z3.Not(sp.known(c))):
+            raise E.Unsupported('fallback item whose code may be an assigned one cannot be viewed as a coded item')
+        return c
+    raise E.Unsupported('item of type %s in a coded sequence' % I.py_type_of(x).__name__)
+
+
 @method_model('seq', 'append')
 def _seq_append(s, x):
     if s.kind not in ('list', 'bytearray'):
         raise_(AttributeError, 'append')
-    if s.elem == 'int':
+    if isinstance(s.elem, tuple) and s.elem[0] == 'coded':
+        t = abstract_coded(s.elem[1], x)
+    elif s.elem == 'int':
         t = as_int(x)
     elif isinstance(s.elem, tuple) and s.elem[0] == 'enum':
         t = ops.enum_index(x)
@@ -798,3 +824,40 @@ def _timegm(tt):
     if isinstance(tt, SAbs):
         raise E.Unsupported('timegm of a local time tuple')
     return I.native(calendar.timegm, [tt], {})
+
+
+# ------------------------------------------------------------------------------------------------ cryptodatahub
+from cryptodatahub.common.types import CryptoDataEnumCodedBase, CryptoDataEnumBase  # noqa: E402
+from cryptodatahub.common.exception import InvalidValue as _InvalidValue  # noqa: E402
+
+
+def enum_first_index_by(cls, value_expr, keyfn):
+    """(found: z3 Bool, idx: z3 Int) of the first member m of cls with keyfn(m) == value_expr"""
+    ms = list(cls)
+    keys = [keyfn(m) for m in ms]
+    idx = z3.IntVal(-1)
+    for k in range(len(ms) - 1, -1, -1):
+        if isinstance(keys[k], int):
+            idx = z3.If(value_expr == keys[k], z3.IntVal(k), idx)
+    found = z3.Or(*[value_expr == kk for kk in keys if isinstance(kk, int)]) if keys else z3.BoolVal(False)
+    return found, idx
+
+
+@model(CryptoDataEnumCodedBase.from_code.__func__)
+def _from_code(cls, code):
+    if not V.is_symbolic(code):
+        return I.native(cls.from_code, [code], {})
+    used('cryptodatahub CryptoDataEnumCodedBase.from_code: first member whose value.code equals the argument, else InvalidValue')
+    if isinstance(code, (SInt, SBool)):
+        found, idx = enum_first_index_by(cls, as_int(code), lambda m: m.value.code)
+        if E.cur().branch(found):
+            return SEnum(cls, V.simp(idx))
+        raise E.PyRaise(I.construct(_InvalidValue, [code, cls, 'code'], {}))
+    if isinstance(code, SStr):
+        ms = list(cls)
+        for k, m in enumerate(ms):
+            c = m.value.code
+            if isinstance(c, str) and ops.truth(ops.eq_values(code, c)):
+                return m
+        raise E.PyRaise(I.construct(_InvalidValue, [code, cls, 'code'], {}))
+    raise E.Unsupported('from_code(%s)' % type(code).__name__)
